@@ -12,6 +12,7 @@ import (
 	"math/rand"
 	"os"
 	"testing"
+	"time"
 )
 
 // cfgLine records a run-time configuration change (the tree must not change).
@@ -306,6 +307,82 @@ func vfcRunRO(t *testing.T, tr *vfTrace, h int, seed int64, steps int) *vfcClien
 	return c
 }
 
+// vfcRunROSwitch: read-only is switched on while a WRITE admitted earlier is still inside a
+// slow backend call (and HandleCall has already timed it out). Once the update has returned,
+// the backend must see no modifying operation any more. Logs one "roswitch" line.
+func vfcRunROSwitch(t *testing.T, tr *vfTrace, h int, seed int64) {
+	fs := vfNewFS()
+	fs.vfPoke("/f", "F", []byte("data"), "", 0644)
+	cfg := vfcCfg{TTL: "min", Profile: "ro"}
+	c := vfcNewClientOn(t, tr, cfg, h, seed, fs)
+	c.env.n.UpdateTuningOptions(func(tu *TuningOptions) { tu.Timeouts.DefaultTimeout = 80 * time.Millisecond })
+	c.lookup(c.hs[0], "f")
+	c.flush()
+	var fh uint64
+	for _, hh := range c.hs {
+		if len(c.hp[hh]) == 1 {
+			fh = hh
+		}
+	}
+	release := make(chan struct{})
+	entered := make(chan struct{}, 1)
+	fs.Gate = func(op, p string) {
+		if op == "WriteAt" || (op == "OpenFile" && p == "/f") {
+			select {
+			case entered <- struct{}{}:
+				<-release
+			default:
+			}
+		}
+	}
+	reqDone := make(chan struct{})
+	go func() {
+		c.env.Do(NFSPROC3_WRITE, vfArgsWrite(fh, 0, 2, []byte("new!")), vfRoot)
+		close(reqDone)
+	}()
+	select {
+	case <-entered:
+	case <-time.After(2 * time.Second):
+		t.Fatalf("roswitch: the WRITE never reached the backend")
+	}
+	<-reqDone // HandleCall gave up after DefaultTimeout; its goroutine is still in the backend
+	updDone := make(chan struct{})
+	go func() {
+		c.setPolicy(t, func(p *PolicyOptions) { p.ReadOnly = true })
+		close(updDone)
+	}()
+	early := false
+	select {
+	case <-updDone:
+		early = true // the update did not wait for the request in flight
+	case <-time.After(300 * time.Millisecond):
+	}
+	fs.TakeCalls()
+	if early {
+		close(release)
+		time.Sleep(200 * time.Millisecond)
+	} else {
+		close(release)
+		select {
+		case <-updDone:
+		case <-time.After(5 * time.Second):
+			t.Fatalf("roswitch: UpdatePolicyOptions did not return after the request finished")
+		}
+		fs.TakeCalls() // what the request did before the update returned is legitimate
+		time.Sleep(50 * time.Millisecond)
+	}
+	mutAfter := 0
+	for _, cl := range fs.TakeCalls() {
+		if vfcMutating(cl.Op, cl.Flags) {
+			mutAfter++
+		}
+	}
+	fs.Gate = nil
+	c.cfg.RO = true
+	tr.Emit(M{"ev": "roswitch", "early": early, "mut_after": mutAfter, "cfg": c.cfg, "tree": c.tree()})
+	c.env.Close()
+}
+
 // ---------------------------------------------------------------- crash (C22)
 
 type vfcCrashOp struct {
@@ -416,6 +493,12 @@ func TestVF_Core2(t *testing.T) {
 			case "own":
 				c = vfcRunOwn(t, tr, h, seed, steps)
 			default:
+				if h%10 == 9 {
+					vfcRunROSwitch(t, tr, h, seed)
+					hists++
+					nontrivial++
+					continue
+				}
 				c = vfcRunRO(t, tr, h, seed, steps)
 			}
 			c.flush()
